@@ -23,6 +23,7 @@ import (
 	"verif/internal/gen/typedoc"
 	"verif/internal/harness"
 	"verif/internal/model"
+	"verif/internal/mon/gorou"
 	"verif/internal/nast"
 )
 
@@ -30,7 +31,7 @@ func init() {
 	core.Register(&core.Check{
 		ID: "C07", Level: "exploration", Race: true,
 		Technique: "Go race detector over the real entry points (children are built with -race; every report block with a library frame is a violation, de-duplicated by the pair of first library frames), plus a per-request differential against the same request executed alone on an identically generated cold schema, plus verifhook counters showing which lazy-initialisation sites were entered by several goroutines in one round; yield hooks (Gosched / short sleeps at lazy sites) in half of the rounds",
-		Rule: "case = one round: a fresh cold schema built from a generated model, one shared PlanCache (MaxEntries 2), optionally shared prepared plans, N goroutines released from a barrier, each issuing a PRNG-chosen sequence of {Do, ValidateDocument, PlanCache.Get+ExecutePlan, ExecutePlan on a shared plan, Reset, introspection}; non-trivial: >= 2 goroutines executed requests touching an enum, a union or an interface; distinct by hash(model, request multiset, op sequences)",
+		Rule:      "case = one round: a fresh cold schema built from a generated model, one shared PlanCache (MaxEntries 2), optionally shared prepared plans, N goroutines released from a barrier, each issuing a PRNG-chosen sequence of {Do, ValidateDocument, PlanCache.Get+ExecutePlan, ExecutePlan on a shared plan, Reset, introspection}; non-trivial: >= 2 goroutines executed requests touching an enum, a union or an interface; distinct by hash(model, request multiset, op sequences)",
 		Assumptions: []string{
 			"the race detector only sees races that the executed schedule makes possible (happens-before analysis); interleavings the scheduler never produced and code the workload never reaches are not covered",
 			"harness callbacks take no locks on the request path (no event log, lock-free outcome table), so they add no happens-before edges that could hide a library race",
@@ -183,8 +184,8 @@ func run(c *core.Child) {
 		before := verifhook.Snapshot()
 		type outcome struct {
 			g, step, ri int
-			kind      string
-			got       string
+			kind        string
+			got         string
 		}
 		var mu sync.Mutex // taken only AFTER a request finished, to store its outcome
 		var outs []outcome
@@ -259,17 +260,27 @@ func run(c *core.Child) {
 		close(start)
 		done := make(chan struct{})
 		go func() { wg.Wait(); close(done) }()
-		select {
-		case <-done:
-		case <-time.After(120 * time.Second):
-			buf := make([]byte, 1<<20)
-			n := runtime.Stack(buf, true)
-			dump := string(buf[:n])
-			if strings.Contains(dump, "github.com/graphql-go/graphql.") {
-				c.Violation("deadlock", "a round of concurrent requests did not finish; goroutines are parked in library code", map[string]interface{}{"schema": m.SDL(), "dump": dump[:min(len(dump), 6000)]})
-			} else {
-				c.Inconclusive("round did not finish in 120 s and no goroutine is in library code")
+		// A deadlock is a STATE, not a duration: the round is declared stuck only
+		// when every goroutine with a library frame is parked and the set of
+		// such goroutines did not change over several samples. Otherwise the
+		// round is simply slow (loaded machine) and we keep waiting; the child
+		// watchdog is the last resort and its firing is inconclusive.
+		stuck := false
+	wait:
+		for {
+			select {
+			case <-done:
+				break wait
+			case <-time.After(60 * time.Second):
+				smp := gorou.Query{}.Stable(4, 12)
+				if smp.Stable && len(smp.Hits) > 0 && smp.AllParked() {
+					c.Violation("deadlock", "a round of concurrent requests does not finish: every goroutine in library code is parked, unchanged over 4 samples", map[string]interface{}{"schema": m.SDL(), "states": smp.States(), "goroutines": gorou.Describe(smp.Hits)})
+					stuck = true
+					break wait
+				}
 			}
+		}
+		if stuck {
 			return
 		}
 		verifhook.SetYield(nil)
